@@ -352,7 +352,7 @@ Proof.
     intros [|[|t]]; cbn; intros H; try reflexivity; discriminate. }
   destruct F as (F0 & (ec1 & u1 & F1) & Fp).
   exists (State (now s) (file s) (content s) (nexti s) (kill_cs 1%nat (cproc s) (cs s)) (cproc s) (tids s)
-                (kill_hb 1%nat (hb s)) (lastcreate s)).
+                (kill_hb 1%nat (hb s)) (lastcreate s) (mtime s)).
   split.
   - apply (reach_step _ _ init s (LKill 1%nat) _ R); [|reflexivity].
     split.
